@@ -39,9 +39,13 @@ enum Route {
     StringToSymbolInTailPosition,
     /// the symbol travels through a pair and a vector before it is used
     StringToSymbolThroughData,
+    /// the symbol is a literal inside a procedure that an earlier evaluation defined (quoted,
+    /// inside a quoted list, in a quasiquote template, in the dotted tail of one): it is kept
+    /// alive by compiled code only
+    LiteralInStoredProcedure,
 }
 
-const ROUTES: [Route; 9] = [
+const ROUTES: [Route; 10] = [
     Route::StringToSymbol,
     Route::Literal,
     Route::QuotedListElement,
@@ -51,10 +55,11 @@ const ROUTES: [Route; 9] = [
     Route::RoundTripOfStringToSymbol,
     Route::StringToSymbolInTailPosition,
     Route::StringToSymbolThroughData,
+    Route::LiteralInStoredProcedure,
 ];
 
 fn is_reader_route(r: Route) -> bool {
-    matches!(r, Route::Literal | Route::QuotedListElement | Route::MacroOutput | Route::EvalQuoted | Route::RoundTripOfLiteral)
+    matches!(r, Route::Literal | Route::QuotedListElement | Route::MacroOutput | Route::EvalQuoted | Route::RoundTripOfLiteral | Route::LiteralInStoredProcedure)
 }
 
 fn sym(s: &str) -> Cell {
@@ -68,7 +73,35 @@ fn quote(c: Cell) -> Cell {
 }
 
 /// expression producing the symbol named `name` by `route` (None: route not applicable)
-fn produce(route: Route, name: &str, reader_spellable: bool) -> Option<Cell> {
+/// Definitions an earlier evaluation makes for `LiteralInStoredProcedure` (slot 1 or 2); the
+/// position of the literal is chosen from the name.
+fn stored_procedure_setup(name: &str, slot: usize) -> Vec<Cell> {
+    let helper = format!("c18-helper-{}", slot);
+    let stored = format!("c18-stored-{}", slot);
+    let qq = |inner: Cell| list(vec![sym("quasiquote"), inner]);
+    let unq = |e: Cell| list(vec![sym("unquote"), e]);
+    let variant = mwv_core::choice::fnv(name.as_bytes()) % 4;
+    match variant {
+        0 => vec![
+            // `(,x . NAME)
+            list(vec![sym("define"), list(vec![sym(&helper), sym("x")]), qq(Cell::new_improper_list(vec![unq(sym("x"))], sym(name)))]),
+            list(vec![sym("define"), list(vec![sym(&stored)]), list(vec![sym("cdr"), list(vec![sym(&helper), Cell::Number(marwood::number::Number::Fixnum(0))])])]),
+        ],
+        1 => vec![list(vec![sym("define"), list(vec![sym(&stored)]), quote(sym(name))])],
+        2 => vec![list(vec![
+            sym("define"),
+            list(vec![sym(&stored)]),
+            list(vec![sym("car"), list(vec![sym("cdr"), quote(list(vec![sym("z"), sym(name), sym("w")]))])]),
+        ])],
+        _ => vec![list(vec![
+            sym("define"),
+            list(vec![sym(&stored)]),
+            list(vec![sym("car"), list(vec![sym("cdr"), qq(list(vec![unq(list(vec![sym("+"), Cell::Number(marwood::number::Number::Fixnum(1)), Cell::Number(marwood::number::Number::Fixnum(1))])), sym(name)]))])]),
+        ])],
+    }
+}
+
+fn produce(route: Route, name: &str, reader_spellable: bool, slot: usize) -> Option<Cell> {
     let s2s = |n: &str| list(vec![sym("string->symbol"), Cell::String(n.to_string())]);
     let needs_reader = !matches!(route, Route::StringToSymbol | Route::RoundTripOfStringToSymbol | Route::StringToSymbolInTailPosition | Route::StringToSymbolThroughData);
     if needs_reader && !reader_spellable {
@@ -86,6 +119,7 @@ fn produce(route: Route, name: &str, reader_spellable: bool) -> Option<Cell> {
             list(vec![sym("lambda"), list(vec![sym("c18-s")]), list(vec![sym("if"), Cell::Bool(true), list(vec![sym("string->symbol"), sym("c18-s")]), Cell::Bool(false)])]),
             Cell::String(name.to_string()),
         ]),
+        Route::LiteralInStoredProcedure => list(vec![sym(&format!("c18-stored-{}", slot))]),
         Route::StringToSymbolThroughData => list(vec![
             sym("vector-ref"),
             list(vec![sym("vector"), list(vec![sym("car"), list(vec![sym("list"), s2s(name)])])]),
@@ -187,7 +221,7 @@ fn check(ctx: &Ctx, p: Params) -> Outcome {
     let same = n1 == n2;
     let sp1 = reader_spellable(&n1);
     let sp2 = reader_spellable(&n2);
-    let (e1, e2) = match (produce(r1, &n1, sp1), produce(r2, &n2, sp2)) {
+    let (e1, e2) = match (produce(r1, &n1, sp1, 1), produce(r2, &n2, sp2, 2)) {
         (Some(a), Some(b)) => (a, b),
         _ => {
             ctx.discard("route needs a reader-spellable name");
@@ -214,6 +248,15 @@ fn check(ctx: &Ctx, p: Params) -> Outcome {
     ]);
     if let Err(e) = eval_cell(&mut s, &setup) {
         return Outcome::fail("C18|harness", e, render);
+    }
+    for (r, n, slot) in [(r1, &n1, 1usize), (r2, &n2, 2usize)] {
+        if r == Route::LiteralInStoredProcedure {
+            for f in stored_procedure_setup(n, slot) {
+                if let Err(e) = eval_cell(&mut s, &f) {
+                    return Outcome::fail("C18|harness", format!("stored procedure for {:?}: {}", n, e), render);
+                }
+            }
+        }
     }
     if sep == 4 {
         s.vm.verif_set_gc_schedule(GcSchedule::EveryK(k));
